@@ -1,7 +1,7 @@
 (** Proofs about the write units around the consensus status: what is saved with the chain tip,
     and crash recovery of a reorganisation (Dpos/LibCrash.v). *)
 From Coq Require Import ZArith List Bool Lia.
-From Verif Require Import Dpos.Lib Dpos.LibProofs Dpos.LibOnMain Dpos.LibCrash.
+From Verif Require Import Dpos.Lib Dpos.LibProofs Dpos.LibOnMain Dpos.LibQuorum Dpos.LibQuorumHist Dpos.LibCrash.
 Import ListNotations.
 Open Scope Z_scope.
 
@@ -41,41 +41,167 @@ Proof.
   exists root, new_blocks. repeat split; auto. apply negb_false_iff in Eveto. exact Eveto.
 Qed.
 
-Theorem recovery_point2_not_vetoed : forall nd blk,
-  sv_inv nd -> snd (deliver nd blk) = OReorg -> snd (deliver_crash 2 nd blk) = CRecovered.
+(** Since fix 479daa05 the redo is not vetoed: whatever the crash point, the reorganisation is redone. *)
+Theorem recovery_redone : forall point nd blk,
+  snd (deliver nd blk) = OReorg -> snd (deliver_crash point nd blk) = CRecovered.
 Proof.
-  intros nd blk I H. unfold deliver_crash.
+  intros point nd blk H. unfold deliver_crash.
   destruct (deliver nd blk) as [nd1 o] eqn:D. simpl in H. subst o.
   destruct (deliver_reorg_inv _ _ _ D) as [root [nb [G [Nr St]]]].
-  change (2 =? 3) with false. cbv iota. unfold redo_reorg. cbn [nd_store nd_main nd_st nd_size nd_self]. rewrite St, G.
-  assert (L : ls_lib (st_ls (restore (main_get (nd_main nd)) (nd_saved nd) (st_best (nd_st nd)) (nd_size nd) (nd_self nd)))
-              = ls_lib (st_ls (nd_st nd))).
-  { pose proof (restart_lib nd I) as R. unfold restart in R. cbn [nd_st] in R. exact R. }
-  unfold need_reorganization in *. rewrite L, Nr. reflexivity.
+  unfold redo_reorg. cbn [nd_store nd_main nd_st nd_size nd_self]. rewrite St, G. reflexivity.
 Qed.
 
-(** * Crash at stop point 3 (mapping and status swapped, marker not deleted): refuted *)
-(** 2 producers; main chain 1, 2; the side branch 3, 4, 5 forking at the genesis block wins at 5;
-    the status saved by that reorganisation has LIB = block 3 (height 1); after the crash the
-    number->hash mapping is put back to 0, 1, 2 and the recovery (fork point 0 < LIB 1) is vetoed:
-    the node keeps the old chain with a LIB that is not on it (and a real node exits). *)
+(** Regression (F40): 2 producers; main chain 1, 2; the side branch 3, 4, 5 forking at the genesis
+    block wins at 5 and the status saved by that reorganisation has LIB = block 3 (height 1) of the
+    new branch; crash between the swap and the deletion of the marker; before the fix the recovery
+    (fork point 0 < LIB 1) was vetoed and the node kept chain 0,1,2 with that LIB.  Now: *)
 Definition f40_events : list event :=
   map EDeliver [mkBlk 1 0 1 0 1; mkBlk 2 1 2 0 1; mkBlk 3 0 1 0 1; mkBlk 4 3 2 1 2].
 Definition f40_tip : block := mkBlk 5 4 3 0 2.
 Local Notation f40_node := (run (init_node 2 1) f40_events).
-Example f40_values :
-  snd (deliver_crash 3 f40_node f40_tip) = CRecoverVeto /\
-  lib_on_main (fst (deliver_crash 3 f40_node f40_tip)) = false /\
-  main_ids (fst (deliver_crash 3 f40_node f40_tip)) = [0; 1; 2].
+Example f40_recovered :
+  snd (deliver_crash 3 f40_node f40_tip) = CRecovered /\
+  lib_on_main (fst (deliver_crash 3 f40_node f40_tip)) = true /\
+  main_ids (fst (deliver_crash 3 f40_node f40_tip)) = [0; 3; 4; 5] /\
+  lib_no (fst (deliver_crash 3 f40_node f40_tip)) = 1.
 Proof. vm_compute. repeat split; reflexivity. Qed.
 
-Theorem recovery_vetoed_refuted :
-  exists size self evs tip,
-    Forall ev_ok evs /\
-    snd (deliver_crash 3 (run (init_node size self) evs) tip) = CRecoverVeto /\
-    lib_on_main (fst (deliver_crash 3 (run (init_node size self) evs) tip)) = false.
+
+(** * The recovered node satisfies the node invariant (LIB and proposals on the new main chain) *)
+Lemma status_update_rollback_SI2 : forall (P Q : binfo -> Prop) g bps size s blk,
+  Forall (fun kv => P (pl_plib (snd kv))) (ls_prpsd (st_ls s)) -> Q genesis_info ->
+  (forall bi, P bi -> b_no bi <= k_no blk -> Q bi) ->
+  (forall i b, g i = Some b -> Q (info_of b)) ->
+  (ls_lib (st_ls s) = empty_info \/ Q (ls_lib (st_ls s))) ->
+  (k_id (st_best s) =? k_prev blk) = false ->
+  SI Q (st_ls (status_update g bps size s blk)).
 Proof.
-  exists 2. exists 1. exists f40_events. exists f40_tip. split.
-  - unfold f40_events. simpl. repeat (apply Forall_cons; [unfold ev_ok, blk_ok; simpl; lia|]). apply Forall_nil.
-  - destruct f40_values as [A [B _]]. split; [exact A | exact B].
+  intros P Q g bps size s blk Hp Qg PQ gQ Hl E. unfold status_update. rewrite E. simpl.
+  apply set_cr_SI, gc_SI. unfold rollback_status_to. apply load_SI; auto; simpl.
+  eapply reset_stale_P; eauto.
 Qed.
+
+Lemma fold_extend_SI_fixed : forall (P : binfo -> Prop) g size store nb p s,
+  chain_from store p nb -> (forall x, In x nb -> P (info_of x)) -> P genesis_info ->
+  k_id (st_best s) = k_id p -> SI P (st_ls s) ->
+  SI P (st_ls (fold_left (status_update g [] size) nb s)) /\
+  st_best (fold_left (status_update g [] size) nb s) = last nb (st_best s).
+Proof.
+  induction nb as [|x tl]; intros p s Hc Hx Pg Hb S.
+  - simpl. split; auto.
+  - destruct Hc as [H1 [H2 [H3 H4]]]. rewrite last_cons_default. cbn [fold_left].
+    replace x with (st_best (status_update g [] size s x)) at 3 by reflexivity.
+    apply (IHtl x); auto.
+    + intros y Hy. apply Hx. right; auto.
+    + apply status_update_extend_SI; auto. apply Hx. left; auto. apply Z.eqb_eq. congruence.
+Qed.
+
+Lemma In_main_get : forall s C p x, WF s C p -> In x C -> main_get C (k_no x) = Some x.
+Proof.
+  intros s C p x W I. apply In_nth_error in I. destruct I as [i Hi].
+  assert (G : main_get C (Z.of_nat i) = Some x).
+  { unfold main_get. destruct (Z.of_nat i <? 0) eqn:E. apply Z.ltb_lt in E; lia. rewrite Nat2Z.id. exact Hi. }
+  destruct (wf_height _ _ _ W _ _ G) as [H _]. rewrite H. exact G.
+Qed.
+
+Theorem recovery_NI : forall point nd blk,
+  NI nd -> blk_ok blk -> snd (deliver nd blk) = OReorg -> NI (fst (deliver_crash point nd blk)).
+Proof.
+  intros point nd blk N Hid H.
+  pose proof (deliver_NI nd blk N Hid) as N1.
+  unfold deliver_crash. destruct (deliver nd blk) as [nd1 o] eqn:D. simpl in H. subst o. cbn [fst] in N1.
+  destruct (deliver_reorg_inv _ _ _ D) as [root [nb [G [Nr St]]]].
+  (* shape of nd1 *)
+  assert (Fid : find_block (nd_store nd) (k_id blk) = None).
+  { revert D. unfold deliver. destruct (find_block (nd_store nd) (k_id blk)); auto. intros D; inversion D. }
+  destruct (reorg_facts nd blk root nb N Hid Fid G) as [Wr [Cn [Epath R0]]].
+  set (main_r := firstn (Z.to_nat (k_no root) + 1) (nd_main nd)) in *.
+  assert (M1 : nd_main nd1 = main_r ++ nb /\ nd_size nd1 = nd_size nd /\ nd_self nd1 = nd_self nd).
+  { revert D. unfold deliver. rewrite Fid.
+    destruct (negb (verify_lib_rule _ blk)); [intros D; inversion D|].
+    destruct (find_block (nd_store nd) (k_prev blk)); [|intros D; inversion D].
+    destruct (negb (k_no b + 1 =? k_no blk)); [intros D; inversion D|].
+    destruct (k_prev blk =? k_id _); [intros D; inversion D|].
+    destruct (k_no blk <=? k_no _); [intros D; inversion D|].
+    rewrite G. rewrite Nr. cbn [negb]. intros D; inversion D; subst. cbn. auto. }
+  destruct M1 as [M1 [Sz Sf]].
+  pose proof (NI_WF _ N1) as W1. unfold WFn in W1. rewrite M1, St in W1.
+  set (P := onm (main_r ++ nb)).
+  assert (Pg : P genesis_info) by (apply gen_onm; apply (wf_gen _ _ _ W1)).
+  assert (Pnb : forall x, In x nb -> P (info_of x)).
+  { intros x I. apply onm_info_of. eapply In_main_get; eauto. apply in_or_app; auto. }
+  assert (Pr : forall bi, onm main_r bi -> P bi) by (intros; apply onm_app; auto).
+  assert (Pold : forall bi, onm (nd_main nd) bi -> b_no bi <= k_no root -> P bi).
+  { intros bi [x [Gx Ex]] Hle. apply Pr. exists x. split; auto.
+    pose proof (main_get_firstn_app (nd_main nd) [] (k_no root) (b_no bi) x) as Q.
+    rewrite app_nil_r in Q. apply Q; auto. destruct (main_get_some_lt _ _ _ Gx). lia. }
+  (* the saved status the node restarts from, and the restored status *)
+  set (sv := if point =? 3 then nd_saved nd1 else nd_saved nd).
+  set (Q0 := fun bi => onm (nd_main nd) bi \/ P bi).
+  set (st0 := restore (main_get (nd_main nd)) sv (st_best (nd_st nd)) (nd_size nd) (nd_self nd)).
+  assert (S0 : Forall (fun kv => Q0 (pl_plib (snd kv))) (ls_prpsd (st_ls st0)) /\
+               (ls_lib (st_ls st0) = empty_info \/ P (ls_lib (st_ls st0)))).
+  { assert (Sv : match sv with
+                 | Some (p, l, _) => Forall (fun kv => Q0 (pl_plib (snd kv))) p /\ (l = empty_info \/ P l)
+                 | None => True end).
+    { unfold sv. destruct (point =? 3).
+      - pose proof (ni_saved _ N1) as V. pose proof (ni_si _ N1) as [_ [_ Sl]].
+        destruct (nd_saved nd1) as [[[p l] lpb]|]; auto. destruct V as [V1 V2]. rewrite M1 in V2, Sl. split.
+        + eapply Forall_impl; [|exact V2]. intros kv Hkv. right. exact Hkv.
+        + rewrite V1. exact Sl.
+      - pose proof (ni_saved _ N) as V. pose proof (ni_si _ N) as [_ [_ Sl]].
+        destruct (nd_saved nd) as [[[p l] lpb]|]; auto. destruct V as [V1 V2]. split.
+        + eapply Forall_impl; [|exact V2]. intros kv Hkv. left. exact Hkv.
+        + rewrite V1. destruct Sl as [Sl|Sl]; auto. right. apply Pold; auto.
+          unfold need_reorganization in Nr. apply Z.leb_le in Nr. exact Nr. }
+    unfold st0, restore. destruct sv as [[[p l] lpb]|]; cbn [st_ls].
+    - destruct Sv as [Sp Sl].
+      assert (L : SI Q0 (load (main_get (nd_main nd)) (mkLS p l lpb [] (confirms_required (nd_size nd)) (nd_self nd)) (k_no (st_best (nd_st nd))))).
+      { apply load_SI; simpl; auto.
+        - intros i b Gb. left. apply onm_info_of. destruct (ni_height _ N _ _ Gb) as [Hb _]. rewrite Hb. exact Gb.
+        - left. apply gen_onm. apply (ni_gen _ N).
+        - destruct Sl as [Sl|Sl]; auto. right. right. exact Sl. }
+      destruct L as [_ [Lp _]]. split; auto. rewrite load_lib. simpl. exact Sl.
+    - simpl. split; auto. }
+  destruct S0 as [S0p S0l].
+  (* redo *)
+  unfold redo_reorg. cbn [nd_store nd_main nd_st nd_size nd_self]. rewrite St, G. cbn [fst].
+  fold main_r. fold sv. fold st0.
+  assert (B0 : st_best st0 = st_best (nd_st nd)).
+  { unfold st0, restore. destruct sv as [[[p l] lpb]|]; reflexivity. }
+  set (st1 := status_update (main_get main_r) [] (nd_size nd) st0 root).
+  assert (S1 : SI P (st_ls st1)).
+  { unfold st1. eapply status_update_rollback_SI2 with (P := Q0); auto.
+    - intros bi [Hb|Hb] Hle; auto.
+    - intros i b Gb. apply Pr. apply onm_info_of. destruct (wf_height _ _ _ Wr _ _ Gb) as [Hb _]. rewrite Hb. exact Gb.
+    - rewrite B0. exact Epath. }
+  destruct (fold_extend_SI_fixed P (main_get main_r) (nd_size nd) (blk :: nd_store nd) nb root st1 Cn Pnb Pg eq_refl S1)
+    as [S2 B2].
+  set (st2 := fold_left (status_update (main_get main_r) [] (nd_size nd)) nb st1) in *.
+  assert (Bst : st_best st2 = st_best (nd_st nd1)).
+  { rewrite B2. change (st_best st1) with root.
+    (* the online reorganisation ends on the same block *)
+    revert D. unfold deliver. rewrite Fid.
+    destruct (negb (verify_lib_rule _ blk)); [intros D; inversion D|].
+    destruct (find_block (nd_store nd) (k_prev blk)); [|intros D; inversion D].
+    destruct (negb (k_no b + 1 =? k_no blk)); [intros D; inversion D|].
+    destruct (k_prev blk =? k_id _); [intros D; inversion D|].
+    destruct (k_no blk <=? k_no _); [intros D; inversion D|].
+    rewrite G. rewrite Nr. cbn [negb]. intros D; inversion D; subst. cbn [nd_st]. fold main_r.
+    assert (F : forall l s, st_best (fold_left (status_update (main_get main_r) [] (nd_size nd)) l s) = last l (st_best s)).
+    { induction l; intros; [reflexivity|]. cbn [fold_left]. rewrite IHl, last_cons_default. reflexivity. }
+    rewrite F. reflexivity. }
+  apply NI_of; cbn [nd_main nd_st nd_store nd_saved].
+  - unfold WFn. cbn [nd_main nd_st nd_store]. rewrite Bst. exact W1.
+  - rewrite <- St. apply (ni_uniq _ N1).
+  - rewrite <- St. apply (ni_ids _ N1).
+  - exact S2.
+  - unfold save. destruct S2 as [a [b c]]. split; auto.
+Qed.
+
+(** [recovery_lib_on_main]: after a crash at either stop point of a reorganisation and the
+    recovery, the LIB (and every proposal) is on the node's (new) main chain. *)
+Theorem recovery_lib_on_main : forall point nd blk,
+  NI nd -> blk_ok blk -> snd (deliver nd blk) = OReorg ->
+  lib_on_main (fst (deliver_crash point nd blk)) = true.
+Proof. intros. apply NI_lib_on_main, recovery_NI; auto. Qed.
